@@ -83,6 +83,10 @@ func buildC13(cfg *mon.Config) []*mon.Sub {
 				}
 			},
 			Exec: c13Exec,
+			Sample: func(p string) any {
+				i := strings.IndexByte(p, 0)
+				return map[string]string{"tokenizer": p[:i], "lexemes": lexString(decLex(p[i+1:]))}
+			},
 			Final: func(r *mon.SubReport) string {
 				need := []string{"Word", "Integer", "Float", "Quoted", "Comment", "Whitespace", "Symbol"}
 				if kind == "expression" {
@@ -127,6 +131,10 @@ func buildC13(cfg *mon.Config) []*mon.Sub {
 				}
 			},
 			Exec: c13Exec,
+			Sample: func(p string) any {
+				i := strings.IndexByte(p, 0)
+				return map[string]string{"tokenizer": p[:i], "lexemes": lexString(decLex(p[i+1:]))}
+			},
 		})
 	}
 	return subs
